@@ -16,6 +16,11 @@ structure PackOpts where
   dereference : Bool
   applyIgnore : Bool
   allow : List Str
+  /-- not an option of the real Packer: the physical locations of the directories that are
+  currently being archived in place of a symlink, innermost first (the `visiting` argument of
+  `packWalkFn`; `os.SameFile` is equality of physical locations).  Empty at the top level; it
+  travels with the options because every nested walk receives it the same way. -/
+  visiting : List PPath := []
   deriving Repr, DecidableEq
 
 structure PMeta where
@@ -149,18 +154,19 @@ def visit (fs : FS) (cwd : Str) (o : PackOpts) (rules : Option (List Rule)) (roo
     | none => (st, .stop .ioerr)
     | some sub0 =>
       if sub0 = dot then (st, .cont)
-      else if (ruleExcludes rules sub0).1 then (st, .cont)
       else
-        let isDir := match node with
-          | .dir _ _ => true
-          | _ => false
-        let dirVerdict := if isDir then ruleExcludes rules (sub0 ++ ['/']) else (false, false)
-        if dirVerdict.1 then (st, if dirVerdict.2 then .skipDir else .cont)
-        else
-          match pathRel root (replaceFirst path src dst) with
-          | none => (st, .stop .ioerr)
-          | some sub =>
-            if sub = dot then (st, .cont)
+        -- the path the file gets in the archive; the ignore rules are matched against it
+        match pathRel root (replaceFirst path src dst) with
+        | none => (st, .stop .ioerr)
+        | some sub =>
+          if sub = dot then (st, .cont)
+          else if (ruleExcludes rules sub).1 then (st, .cont)
+          else
+            let isDir := match node with
+              | .dir _ _ => true
+              | _ => false
+            let dirVerdict := if isDir then ruleExcludes rules (sub ++ ['/']) else (false, false)
+            if dirVerdict.1 then (st, if dirVerdict.2 then .skipDir else .cont)
             else
               match node with
               | .special => (st, .cont)
@@ -183,14 +189,22 @@ def visit (fs : FS) (cwd : Str) (o : PackOpts) (rules : Option (List Rule)) (roo
                   match resolveExternalLink fs maxLinkHops path with
                   | .error r => (st, .stop r)
                   | .ok (absTarget, .dir _ _) =>
-                    -- nested filepath.Walk(absTarget, packWalkFn(root, absTarget, path))
-                    match fs.lstat absTarget with
+                    -- a directory that is already being archived through a link and is reached again
+                    -- from inside itself: "symlink cycle" error (`os.SameFile` on the visiting list)
+                    match fs.resolvePath absTarget true with
                     | .error _ => (st, .stop .ioerr)
-                    | .ok n =>
-                      let (st1, r) := walkNode fs cwd o rules root absTarget path fuel absTarget n st
-                      match r with
-                      | .skipDir => (st1, .cont)     -- Walk turns a final SkipDir into nil
-                      | other => (st1, other)
+                    | .ok phys =>
+                      if o.visiting.contains phys then (st, .stop .ioerr)
+                      else
+                        -- nested filepath.Walk(absTarget, packWalkFn(root, absTarget, path, visiting'))
+                        match fs.lstat absTarget with
+                        | .error _ => (st, .stop .ioerr)
+                        | .ok n =>
+                          let (st1, r) := walkNode fs cwd { o with visiting := phys :: o.visiting } rules
+                            root absTarget path fuel absTarget n st
+                          match r with
+                          | .skipDir => (st1, .cont)     -- Walk turns a final SkipDir into nil
+                          | other => (st1, other)
                   | .ok (_, .file perm mt content) =>
                     -- the header (size, mode, time) comes from the node `resolveExternalLink` found
                     -- (lexical joins), the body from `os.Open(path)` (kernel resolution); when a
